@@ -18,7 +18,7 @@ func prof(name string, mod func(p *gen.Profile)) func() gen.Profile {
 }
 
 func init() {
-	Props["C01"] = &PropDef{Profile: prof("C01", nil), Oracle: oracle.C01, Confirm: true}
+	Props["C01"] = &PropDef{Profile: prof("C01", func(p *gen.Profile) { p.GopathPct = 4 }), Oracle: oracle.C01, Confirm: true}
 	Props["C02"] = &PropDef{Profile: prof("C02", func(p *gen.Profile) { p.EmbedPct = 45; p.MaxMethods = 5 }), Oracle: oracle.C02}
 	Props["C08s"] = &PropDef{Profile: prof("C08s", func(p *gen.Profile) { p.MaxMethods = 4 }), Oracle: oracle.C08Static}
 	Props["C09"] = &PropDef{Profile: prof("C09", func(p *gen.Profile) { p.GenericPct = 85; p.MaxIfaces = 2; p.DestOther = 35 }), Oracle: oracle.C09}
@@ -31,6 +31,7 @@ func init() {
 		p.AliasPct = 35
 		p.EmbedPct = 40
 		p.MultiRefPct = 15
+		p.GopathPct = 12
 	}), Oracle: oracle.C11}
 	Props["C12"] = &PropDef{Profile: prof("C12", func(p *gen.Profile) { p.AdvNames = true; p.MaxParams = 6; p.UnnamedPct = 35; p.GenericPct = 10; p.ShadowPct = 25 }), Oracle: oracle.C12}
 	Props["C13"] = &PropDef{Profile: prof("C13", func(p *gen.Profile) { p.AdvNames = true; p.MaxParams = 5; p.UnnamedPct = 55; p.GenericPct = 8; p.MaxDepth = 4; p.ShadowPct = 10 }), Oracle: oracle.C13}
